@@ -964,6 +964,11 @@ def run(ctx):
     from . import C04
     ctx.guarded('C01-D5', 'obs.py:_merge_idx', C04.merge_idx_rules, ctx, obs, 'C01-D5', (('_merge_idx', 'union'),))
     ctx.guarded('C01-D7', 'obs.py:derived_observable@wiring', wiring, ctx, obs)
+    from .. import unusedparams
+    ctx.rule('C01-D9', 'every accepted option is read (no silently ignored parameter)')
+    for mn_ in ('obs', 'covobs'):
+        ctx.guarded('C01-D9', mn_ + '@parameters', unusedparams.check, ctx, 'C01-D9', ctx.repo.mod(mn_))
+
 
 
 SELFTEST = [
